@@ -58,24 +58,40 @@ LoadBytes(cpu, v) ==
     [] cpu = "z80"    -> <<62, v % 256>>
     [] cpu = "avr8"   -> <<v % 16, 224 + ((v \div 16) % 16)>>
 Max2(a, b) == IF a > b THEN a ELSE b
+\* [k |-> "lab", n] defines the label n at the current address, [k |-> "ref", n] is `.dc16 n`: the label's address in
+\* units, wherever in the block it is defined (the block is assembled in two passes)
+ItemSize(it) == CASE it.k = "res" -> it.cnt [] it.k = "insn" -> Len(LoadBytes(it.cpu, it.imm)) [] it.k = "lab" -> 0
+                  [] it.k = "ref" -> 2 [] it.k = "org" -> 0 [] OTHER -> it.w * Len(it.vals)
+RECURSIVE LabPass(_, _, _, _)
+LabPass(pc, items, i, acc) ==
+  IF i > Len(items) THEN acc
+  ELSE LET it == items[i]
+           a2 == IF it.k = "lab" THEN (it.n :> pc) @@ acc ELSE acc
+           p2 == IF it.k = "org" THEN it.a ELSE pc + ItemSize(it)
+       IN IF a2 = a2 /\ p2 = p2 THEN LabPass(p2, items, i + 1, a2) ELSE acc
 RECURSIVE AsmItems(_, _, _, _)
 AsmItems(st, big, items, i) ==
   IF i > Len(items) THEN st
   ELSE LET it == items[i]
            nx == CASE it.k = "org" -> [st EXCEPT !.pc = it.a]
                    [] it.k = "res" -> [st EXCEPT !.pc = @ + it.cnt]
+                   [] it.k = "lab" -> st
+                   [] it.k = "ref" -> LET v == st.labs[it.n] \div st.bpa IN
+                        [st EXCEPT !.mem = WriteAll(st.mem, st.pc, <<<<v % 256, (v \div 256) % 256, 0, 0>>>>, 2, big),
+                                   !.pc = @ + 2, !.hi = Max2(@, st.pc + 1)]
                    [] it.k = "insn" -> LET bs == LoadBytes(it.cpu, it.imm) IN
-                        [mem |-> WriteAll(st.mem, st.pc, [j \in 1..Len(bs) |-> <<bs[j]>>], 1, FALSE),
-                         pc |-> st.pc + Len(bs), hi |-> Max2(st.hi, st.pc + Len(bs) - 1)]
-                   [] OTHER -> [mem |-> WriteAll(st.mem, st.pc, it.vals, it.w, big),
-                                pc |-> st.pc + it.w * Len(it.vals), hi |-> Max2(st.hi, st.pc + it.w * Len(it.vals) - 1)]
+                        [st EXCEPT !.mem = WriteAll(st.mem, st.pc, [j \in 1..Len(bs) |-> <<bs[j]>>], 1, FALSE),
+                                   !.pc = @ + Len(bs), !.hi = Max2(@, st.pc + Len(bs) - 1)]
+                   [] OTHER -> [st EXCEPT !.mem = WriteAll(st.mem, st.pc, it.vals, it.w, big),
+                                          !.pc = @ + it.w * Len(it.vals), !.hi = Max2(@, st.pc + it.w * Len(it.vals) - 1)]
        IN IF nx = nx THEN AsmItems(nx, big, items, i + 1) ELSE st
 \* items give .org in units; scale here
 ScaleItems(items, bpa) == [j \in 1..Len(items) |-> IF items[j].k = "org" THEN [items[j] EXCEPT !.a = @ * bpa] ELSE items[j]]
 \* s = [mem, org (unit address where `asm` without an argument continues)]
 AsmBlock(s, bpa, big, c) ==
   LET o  == IF c.a >= 0 THEN c.a ELSE s.org
-      st == AsmItems([mem |-> s.mem, pc |-> o * bpa, hi |-> -1], big, ScaleItems(c.items, bpa), 1)
+      its == ScaleItems(c.items, bpa)
+      st == AsmItems([mem |-> s.mem, pc |-> o * bpa, hi |-> -1, labs |-> LabPass(o * bpa, its, 1, <<>>), bpa |-> bpa], big, its, 1)
   IN [mem |-> st.mem, org |-> IF st.hi < 0 THEN o ELSE IF (st.hi + 1) % bpa = 0 THEN (st.hi + 1) \div bpa ELSE -2]
 
 StepCmd(s, bpa, big, c) ==
